@@ -133,6 +133,19 @@ Inductive post_outcome :=
 | PProxy               (* not the leader: forwarded *)
 | PPropose (e : entry) (* applyMessageWait *).
 
+(* DELETE /robustirc/v1/<id> (internal/api/deletesession.go, handleDeleteSession): decode the WHOLE
+   body into {Quitmessage} (no size limit here, unlike the POST handler) — a decode error answers
+   500 "Could not decode request"; not the leader: proxy; then the quit message is cut at the first
+   CR, LF or NUL (it ends up in QUIT and ERROR lines) and a DeleteSession entry is proposed.
+   [json_quit] is the encoding/json oracle for {Quitmessage}.  PBadRequest stands for the 500. *)
+Definition delete_handler (json_quit : string -> option string) (st : state) (sid : N) (body : string) : post_outcome :=
+  match json_quit body with
+  | None => PBadRequest
+  | Some q =>
+      if negb (st_leader st) then PProxy
+      else PPropose (mkEntry EDelete 0 sid 0 (cut_line q) 0)
+  end.
+
 Section Handler.
 Variable json_decode : string -> option (string * N).   (* {Data, ClientMessageId} of the first JSON value *)
 
